@@ -1236,6 +1236,33 @@ func scnCli(o *Out, r *Rng, thorough bool) {
 	for _, f := range fixed {
 		ins = append(ins, strings.Join(f, " "))
 	}
+	// float literals at the edges of the float32 / float64 ranges and between two
+	// representable values (rounding must happen once, in the requested width)
+	for _, t := range []struct {
+		ty  string
+		lit string
+	}{{"float32", "3.5e38"}, {"float32", "-3.5e38"}, {"float32", "1e39"}, {"float32", "3.4028235e38"},
+		{"float32", "3.4028236e38"}, {"float32", "16777217.0000000001"}, {"float32", "16777216.9999999999"},
+		{"float32", "1e-46"}, {"float32", "7.0064923216240854e-46"}, {"float32", "0.1"},
+		{"float64", "1.8e308"}, {"float64", "1.7976931348623157e308"}, {"float64", "4.9e-324"}, {"float64", "2.4e-324"}} {
+		g := &cliGen{r: r}
+		bitsN := 32
+		if t.ty == "float64" {
+			bitsN = 64
+		}
+		v, err := strconv.ParseFloat(t.lit, bitsN)
+		ent := hx2([]byte(t.lit)) + "." + itoa(bitsN) + "."
+		if err != nil {
+			ent += "err"
+		} else if bitsN == 32 {
+			ent += hxu(uint64(math.Float32bits(float32(v))))
+		} else {
+			ent += hxu(math.Float64bits(v))
+		}
+		_ = g
+		ins = append(ins, strings.Join([]string{"E", "W", "U", "F=" + ent, enc("C", "wr:"+t.ty+":100:"+t.lit), enc("C", "rh:"+t.ty+":100")}, " "))
+		o.Stat("float-boundary")
+	}
 	for i := 0; i < n; i++ {
 		g := &cliGen{r: r}
 		var toks []string
